@@ -34,6 +34,9 @@ pub struct Scenario {
     pub peer: Vec<K>,
     pub cap: Cap,
     pub pay: Pay,
+    /// C14 family: further steps the peer makes after the owner's first i steps, before it is
+    /// frozen for good (so that it can slip into a window inside the owner's call)
+    pub extra: u32,
 }
 
 pub fn scenarios(prop: &str) -> Vec<Scenario> {
@@ -78,7 +81,12 @@ pub fn scenarios(prop: &str) -> Vec<Scenario> {
                         vec![K::DropH, K::DropH],
                         vec![K::CloneH, K::Observe],
                     ] {
-                        v.push(Scenario { owner, peer, cap, pay });
+                        for extra in [0u32, 5, 11] {
+                            if extra > 0 && !owner.is_rt() {
+                                continue;
+                            }
+                            v.push(Scenario { owner, peer: peer.clone(), cap, pay, extra });
+                        }
                     }
                 }
             }
@@ -100,7 +108,7 @@ pub fn scenarios(prop: &str) -> Vec<Scenario> {
                     vec![K::DropH, K::DropH],
                     vec![K::TrySendRt, K::TrySendRt],
                 ] {
-                    v.push(Scenario { owner: K::Recv, peer, cap, pay });
+                    v.push(Scenario { owner: K::Recv, peer, cap, pay, extra: 0 });
                 }
                 for peer in [
                     vec![K::Recv],
@@ -111,7 +119,7 @@ pub fn scenarios(prop: &str) -> Vec<Scenario> {
                     vec![K::Close],
                     vec![K::DropH, K::DropH],
                 ] {
-                    v.push(Scenario { owner: K::Send, peer, cap, pay });
+                    v.push(Scenario { owner: K::Send, peer, cap, pay, extra: 0 });
                 }
             }
         }
@@ -132,7 +140,7 @@ pub fn scenarios(prop: &str) -> Vec<Scenario> {
                         vec![K::Close],
                         vec![K::DropH, K::DropH],
                     ] {
-                        v.push(Scenario { owner, peer, cap, pay });
+                        v.push(Scenario { owner, peer, cap, pay, extra: 0 });
                     }
                 }
                 for peer in [
@@ -143,7 +151,7 @@ pub fn scenarios(prop: &str) -> Vec<Scenario> {
                     vec![K::Close],
                     vec![K::DropH, K::DropH],
                 ] {
-                    v.push(Scenario { owner: K::RecvTimeout, peer, cap, pay });
+                    v.push(Scenario { owner: K::RecvTimeout, peer, cap, pay, extra: 0 });
                 }
             }
         }
@@ -160,7 +168,7 @@ pub fn scenarios(prop: &str) -> Vec<Scenario> {
                 vec![K::Close],
                 vec![K::Recv, K::Recv],
             ] {
-                v.push(Scenario { owner: K::AsyncSend, peer, cap, pay });
+                v.push(Scenario { owner: K::AsyncSend, peer, cap, pay, extra: 0 });
             }
             for owner in [K::AsyncRecv, K::StreamNext] {
                 for peer in [
@@ -171,7 +179,7 @@ pub fn scenarios(prop: &str) -> Vec<Scenario> {
                     vec![K::Close],
                     vec![K::Send, K::Send],
                 ] {
-                    v.push(Scenario { owner, peer, cap, pay });
+                    v.push(Scenario { owner, peer, cap, pay, extra: 0 });
                 }
             }
         }
@@ -235,6 +243,15 @@ pub fn build_case(p: &Profile, sc: &Scenario, i: u32, j: u32) -> Case {
         // owner's alone-after count, not by schedule segments
         for _ in 0..j {
             sched.extend_from_slice(&[255u8, 0u8]);
+        }
+        if sc.extra > 0 {
+            // the owner's first i steps, then the peer slips in for `extra` steps and is frozen
+            for _ in 0..i {
+                sched.extend_from_slice(&[0u8, 0u8]);
+            }
+            for _ in 0..sc.extra {
+                sched.extend_from_slice(&[255u8, 0u8]);
+            }
         }
         sched.extend_from_slice(&[0u8, 15u8]);
         return Case {
@@ -360,8 +377,8 @@ fn grid_for(prop: &str, tier: &str) -> (u32, u32) {
         ("C06", false) => (16, 36),
         ("C07", true) => (40, 40),
         ("C07", false) => (24, 24),
-        ("C14", true) => (20, 60),
-        ("C14", false) => (10, 40),
+        ("C14", true) => (24, 48),
+        ("C14", false) => (14, 26),
         (_, true) => (56, 40),
         (_, false) => (30, 22),
     }
